@@ -205,7 +205,7 @@ def replay(verdict, exe, res, aspects, seed=0, tag="api", pol=None, sigprefix="a
                 dbl = [x for x in line["cb"] if x["k"] == "free" and x.get("double")]
                 if wantf != gotf or dbl:
                     diffs.append(("freed", "pointers released by the call expected %s observed %s%s" % (wantf, gotf, " (double release)" if dbl else "")))
-            if line["out"] != 0:
+            if line["out"] != g["begin"]["out"]:
                 diffs.append(("stdout", "stray output"))
             if diffs:
                 kinds = sorted(set(k for k, _ in diffs))
